@@ -51,10 +51,8 @@ void InvariantMixedDiscreteDistribution::updateDistribution()
   distribution_[invariant_] = p_;
   for (size_t i = 0; i < distNCat; i++)
   {
-    if (cats[i] == invariant_)
-      distribution_[invariant_] += (1. - p_) * probs[i];
-    else
-      distribution_[cats[i]] = (1. - p_) * probs[i];
+    // values that the map's comparator cannot tell apart (from the invariant or from each other) share one class
+    add(cats[i], (1. - p_) * probs[i]);
   }
 
   intMinMax_->setLowerBound(dist_->getLowerBound(), !dist_->strictLowerBound());
